@@ -6,6 +6,8 @@ use super::*;
 
 pub const KINDS: [&str; 11] = ["random", "sorted", "reverse", "eqprefix", "bigkeys", "binkeys", "emptyleaf", "hint", "update", "halfpage", "sepdup"];
 
+pub const DIRECTED: [&str; 5] = ["emptyleaf", "hint", "update", "halfpage", "sepdup"];
+
 pub struct Ran {
     pub hist: History,
     pub obs: Vec<Obs>,
@@ -97,7 +99,7 @@ impl Runner {
 }
 
 fn scans(r: &mut Runner, rng: &mut Rng, nk: usize, full: bool) {
-    let lim = if full { 100000 } else { 8 + rng.below(30) as usize };
+    let lim = if full { 5000 } else { 8 + rng.below(30) as usize };
     match rng.below(3) {
         0 => { r.push(Op::Fwd(lim)); }
         1 => { r.push(Op::Bwd(lim)); }
@@ -105,8 +107,8 @@ fn scans(r: &mut Runner, rng: &mut Rng, nk: usize, full: bool) {
     }
 }
 fn final_scans(r: &mut Runner, rng: &mut Rng, nk: usize) {
-    r.push(Op::Fwd(100000));
-    r.push(Op::Bwd(100000));
+    r.push(Op::Fwd(5000));
+    r.push(Op::Bwd(5000));
     for _ in 0..2 { r.push(Op::Seek(rng.below(nk as u64) as usize, 40)); }
 }
 
